@@ -759,7 +759,19 @@ def check_C28(res):
     return "bursts of 2-16 OS threads x 1-59 identical requests released by a barrier, with yields in the submitters and a perturbing sink (yield / 50 us sleep while the bucket lock is held); the hook events, ordered by the sequence number taken under the lock, must chain on one bucket (before = previous after), one update per request, and with no refill in between exactly min(n, rate x window) responses are full"
 
 
+def check_C29(res):
+    q = res.tier == "quick"
+    run_mc(res, "MC_ThreadPool/as_found (timeout exit without re-checking the queue)", "MC_ThreadPool.tla", "MC_Pool_as_found.cfg", workers=4, expect_violation="any")
+    for cfg in (["MC_Pool_q1", "MC_Pool_q2", "MC_Pool_t4"] if q else ["MC_Pool_q1", "MC_Pool_q2", "MC_Pool_t1", "MC_Pool_t2", "MC_Pool_t3", "MC_Pool_t4", "MC_Pool_t5"]):
+        run_mc(res, f"MC_ThreadPool/{cfg}", "MC_ThreadPool.tla", cfg + ".cfg", workers=4 if q else 8, must_cover=False)
+    trace_stage(res, ["pool", res.seed, 150 if q else 6000], "TracePool", "pool", ["C29"], session_start=("Reset",))
+    res.assumptions += ["a scenario that makes no progress for 20 s is reported as a hang (HHang is never a step of the specification); tasks are empty closures, so 20 s is four orders of magnitude above a legitimate step",
+                        "which waiter a notify_one wakes is not logged: a wake-up is legal from the waiting state at any time (spurious wake-ups exist)"]
+    return "(M) every interleaving (incl. condition-variable timeouts and spurious wake-ups at any point) of pools with 0-2 permanent workers, lingering or non-lingering auxiliary workers, 2-4 submitters (submit / submit_or_spawn) and concurrent shutdown: safety invariants + liveness under weak fairness of thread steps; the as_found variant must violate them; (V) real schedules of the unmodified thread.rs: 0-2 permanent workers, linger 0 or 4-19 ms, 1-6 tasks from their own threads, shutdown at a random time or only after every accepted task ran, sink that naps 0-300 us inside critical sections and sometimes holds a submitter inside the pool mutex for 3 x linger; every hook event validated with its logged scalars"
+
+
 CHECKS = {
+    "C29": check_C29,
     "C26": check_C26, "C27": check_C27, "C28": check_C28,
     "C23": check_C23, "C24": check_C24, "C25": check_C25,
     "C22": check_C22,
